@@ -19,7 +19,7 @@ def gen(ctx):
     scheds = list(CORPUS)
     n = 150 if ctx.tier == "quick" else 3000
     for _ in range(n):
-        labels, info, nreq = L.gen_session(rng, rng.choice([5, 15, 40, 80]))
+        labels, info, nreq = L.gen_session(rng, rng.choice([5, 15, 40, 80]), pauses=True)
         scheds.append(L.Sched(labels=labels + L.flush(nreq), note="random session"))
     return scheds
 
@@ -42,14 +42,21 @@ def run(ctx, only=None):
             v.append(f"after the last reply and more than the re-idle delay the client did not issue idle again (last line {lines[-1]!r})")
         for m in v[:3]:
             fails.append(Failure(r["sched"].model_case(), m + "\n  written: " + " ".join(repr(l) for l in lines[:60]), extra={"impl_case": r["impl_case"]}))
+    # select! ties: a change and a request in the same instant (judged by the oracles alone; the built-in server answers)
+    ties = L.gen_tie_cases(ctx.rng, 40 if ctx.tier == "quick" else 800) if only is None else []
+    if ties:
+        outs = ctx.run_impl([c for c, _ in ties])
+        for (c, info), raw in zip(ties, outs):
+            for m in L.judge_tie(raw, c.split(" "), info)[:2]:
+                fails.append(Failure(c, "[select! tie] " + m + "\n  trace: " + raw[:1200], klass=None, extra={"tie": True}))
     if only is not None:
         for r in results:
             print("labels:", " ".join(r["sched"].labels)[:1500], "\nops   :", " ".join(r["ops"])[:1500], "\nimpl  :", r["impl_raw"][:2500], "\nmodel :", " ".join(r["model_segs"])[:2500])
-    dist = {"schedules": len(scheds), "labels_total": sum(len(s.labels) for s in scheds), "with_noidle": nontrivial,
+    dist = {"tie_schedules": len(ties), "schedules": len(scheds), "labels_total": sum(len(s.labels) for s in scheds), "with_noidle": nontrivial,
             "requests": sum(sum(1 for l in s.labels if l[0] in "ic") for s in scheds),
             "notifications": sum(sum(1 for l in s.labels if l.startswith("N:")) for s in scheds)}
     return finish(
-        ctx, evaluations=len(scheds), distinct_nontrivial=nontrivial,
+        ctx, evaluations=len(scheds) + len(ties), distinct_nontrivial=nontrivial,
         rule="random schedules of caller operations (raw commands and lists from several callers, cancellations), server-side subsystem changes, "
              "server steps, deliveries of 1..all bytes and clock advances (1..250 ms around the 100 ms re-idle delay) against the rule-abiding "
              "simulated server, each followed by a flush; the real Client is driven by the replayer (paused tokio clock, scripted transport); judged "
@@ -61,6 +68,13 @@ def run(ctx, only=None):
 
 def replay(ctx, payload):
     cases = payload.get("cases", [])
+    if payload.get("extra", {}).get("tie"):
+        # a select! tie: the outcome depends on tokio's random branch choice; run it several times
+        for c in cases:
+            for k, raw in enumerate(ctx.run_impl([c] * 8)):
+                print(f"run {k}:", raw[:1500])
+        print("(tie schedules are judged by the oracles of tools/looplib.judge_tie; re-run ./check C05 for the verdict)")
+        return 0
     scheds = []
     for c in cases:
         toks = c.split(" ")
